@@ -337,6 +337,7 @@ func runC14(r *core.Run) {
 		results = append(results, o)
 		exprs = append(exprs, q)
 	}
+	c14Sources(r, dir)
 	var lines []string
 	reported := map[string]bool{}
 	for i, o := range results {
@@ -375,4 +376,146 @@ func runC14(r *core.Run) {
 	r.Coverage["expressions"] = len(exprs)
 	r.Coverage["double_discards_reported"] = nd
 	r.Coverage["exhaustive"] = false
+}
+
+
+// c14Sources: reading the same data again gives the same values, for every kind of source and every shape of
+// reader.  Within one statement: a query over a common table expression / a sub-query evaluated next to a plain
+// read of the same source (UNION ALL) must give what each part gives alone (RelTrace, kind "concat"); across
+// statements: plain read, reader, plain read of a file table, a temporary table and a cursor.
+func c14Sources(r *core.Run, dir string) {
+	src := "SELECT c1, c2, c1 * 2 AS d FROM tbl"
+	plain := "SELECT c1, c2, d FROM %s"
+	readers := []string{
+		"SELECT c2 AS x, c1 AS y, d AS z FROM %s", "SELECT d AS x, c1 + 1 AS y, c2 AS z FROM %s", "SELECT c1 AS x, c1 AS y, c1 AS z FROM %s", "SELECT d AS x, d AS y, c2 AS z FROM %s",
+		"SELECT c1 * 10 AS x, c2 || 'x' AS y, d AS z FROM %s WHERE c1 > 1", "SELECT c2 AS x, COUNT(*) AS y, SUM(d) AS z FROM %s GROUP BY c2",
+		"SELECT c1 AS x, c2 AS y, ROW_NUMBER() OVER (ORDER BY c1 DESC) AS z FROM %s", "SELECT x, y, z FROM (SELECT c1 AS x, c2 AS y, d AS z FROM %s ORDER BY c1 DESC LIMIT 2) lim",
+		"SELECT DISTINCT c2 AS x, 1 AS y, 2 AS z FROM %s", "SELECT a.c1 AS x, b.c2 AS y, a.d AS z FROM %s a JOIN %s b ON a.c1 = b.c1",
+		"SELECT c2 AS x, d AS y, (SELECT MAX(c1) FROM %s) AS z FROM %s", "SELECT UPPER(c2) AS x, -c1 AS y, d / 2 AS z FROM %s",
+	}
+	fill := func(q, name string) string { return strings.ReplaceAll(q, "%s", name) }
+	rowsOf := func(p *sut.Proc, sql string) ([]string, string) {
+		res := p.Exec(sql)
+		if res.Err != "" {
+			return nil, errClass(res)
+		}
+		ts, err := sut.ParseJSONTables(res.Out)
+		if err != nil {
+			core.Fail("c14 sources: %v", err)
+		}
+		out := []string{}
+		if len(ts) > 0 {
+			for _, row := range ts[0].Rows {
+				var cs []string
+				for _, c := range row {
+					cs = append(cs, c.String())
+				}
+				out = append(out, strings.Join(cs, "|"))
+			}
+		}
+		return out, ""
+	}
+	var evs []relEvent
+	add := func(sig, sql string, parts [][]string, whole []string) {
+		evs = append(evs, relEvent{SQL: sql, Sig: sig, CPU: 1, Ev: map[string]interface{}{"kind": "concat", "parts": parts, "whole": whole}})
+	}
+	for ri, rd := range readers {
+		p, err := sut.NewProc(dir, nil)
+		if err != nil {
+			core.Fail("proc: %v", err)
+		}
+		fail := func(sig, sql, e string) {
+			r.Violation("reuse:source:"+sig+":error:"+e, sql+" fails with "+e, map[string]interface{}{"sql": sql})
+		}
+		// (1) common table expression
+		with := "WITH w AS (" + src + ") "
+		ra, e1 := rowsOf(p, with+fill(rd, "w")+";")
+		pa, e2 := rowsOf(p, with+fill(plain, "w")+";")
+		if e1 != "" || e2 != "" {
+			fail("cte", with+fill(rd, "w"), e1+e2)
+		} else {
+			for _, shape := range [][]string{{"r", "p"}, {"p", "r", "p"}, {"r", "r", "p"}} {
+				var qs []string
+				var parts [][]string
+				for _, k := range shape {
+					if k == "r" {
+						qs, parts = append(qs, fill(rd, "w")), append(parts, ra)
+					} else {
+						qs, parts = append(qs, fill(plain, "w")), append(parts, pa)
+					}
+				}
+				sql := with + strings.Join(qs, " UNION ALL ")
+				whole, e := rowsOf(p, sql+";")
+				if e != "" {
+					fail("cte", sql, e)
+					continue
+				}
+				add(fmt.Sprintf("reuse:source:cte:reader%d", ri), sql, parts, whole)
+			}
+		}
+		// (2) sub-query in FROM
+		sq := "(" + src + ") s"
+		rb, e1 := rowsOf(p, strings.ReplaceAll(fill(rd, sq), sq+" a JOIN "+sq+" b", "("+src+") a JOIN ("+src+") b")+";")
+		if strings.Contains(rd, " a JOIN ") || strings.Contains(rd, "(SELECT MAX") {
+			rb, e1 = nil, "skip"
+		}
+		pb, e2 := rowsOf(p, fill(plain, sq)+";")
+		if e1 == "" && e2 == "" {
+			sql := fill(rd, sq) + " UNION ALL " + fill(plain, sq)
+			whole, e := rowsOf(p, sql+";")
+			if e != "" {
+				fail("subquery", sql, e)
+			} else {
+				add(fmt.Sprintf("reuse:source:subquery:reader%d", ri), sql, [][]string{rb, pb}, whole)
+			}
+		}
+		// (3) temporary table and file table across statements: plain, reader, plain
+		p.Exec("DECLARE tt VIEW (c1, c2, d) AS " + src + ";")
+		for _, name := range []string{"tt", "(SELECT c1, c2, c1 * 2 AS d FROM tbl) q"} {
+			if strings.HasPrefix(name, "(") && (strings.Contains(rd, " a JOIN ") || strings.Contains(rd, "(SELECT MAX")) {
+				continue
+			}
+			p1, e1 := rowsOf(p, fill(plain, name)+";")
+			_, e2 := rowsOf(p, fill(rd, name)+";")
+			p2, e3 := rowsOf(p, fill(plain, name)+";")
+			if e1+e2+e3 != "" {
+				fail("table", fill(rd, name), e1+e2+e3)
+				continue
+			}
+			add(fmt.Sprintf("reuse:source:table:reader%d", ri), fill(plain, name)+"; "+fill(rd, name)+"; "+fill(plain, name), [][]string{p1}, p2)
+		}
+		// (4) cursor: the rows a cursor holds are not changed by a reader of the same table in between
+		p.Exec("DECLARE cur CURSOR FOR " + src + "; OPEN cur; VAR @a, @b, @c;")
+		p.Exec("FETCH cur INTO @a, @b, @c;")
+		_, _ = rowsOf(p, fill(rd, "tbl")+";")
+		_, _ = rowsOf(p, strings.ReplaceAll(fill(rd, "tt"), "%s", "tt")+";")
+		rest := []string{}
+		for k := 0; k < 4; k++ {
+			rr := p.Exec("FETCH cur INTO @a, @b, @c; SELECT @a, @b, @c;")
+			if rr.Err == "" {
+				if ts, err := sut.ParseJSONTables(rr.Out); err == nil && len(ts) > 0 && len(ts[0].Rows) > 0 {
+					var cs []string
+					for _, c := range ts[0].Rows[0] {
+						cs = append(cs, c.String())
+					}
+					rest = append(rest, strings.Join(cs, "|"))
+				}
+			}
+		}
+		if len(pa) >= 5 {
+			add(fmt.Sprintf("reuse:source:cursor:reader%d", ri), "FETCH after "+fill(rd, "tt"), [][]string{pa[1:5]}, rest)
+		}
+		p.End()
+		r.Count("source_reader_programs", 1)
+	}
+	reported := map[string]bool{}
+	for _, i := range validateRel(r, evs) {
+		e := evs[i]
+		if reported[e.Sig] {
+			continue
+		}
+		reported[e.Sig] = true
+		r.Violation(e.Sig, fmt.Sprintf("%s: the rows differ from what the parts give alone: parts %v, whole %v", e.SQL, e.Ev["parts"], e.Ev["whole"]), map[string]interface{}{"sql": e.SQL})
+	}
+	r.Coverage["source_reader_events"] = len(evs)
 }
